@@ -194,7 +194,7 @@ def check(ctx):
     # stacked-connection reduction in Biclique
     bi = P.cls("Biclique").methods["__init__"]
     red = [c for c in ast.walk(bi.node) if isinstance(c, ast.Call) and dotted(c.func) == "ein.reduce"]
-    ok = len(red) == 1 and isinstance(red[0].args[1], ast.Constant) and red[0].args[1].value == "s ... -> () ..." and ast.unparse(red[0].args[0]) == "list(tensors.values())"
+    ok = len(red) == 1 and isinstance(red[0].args[1], ast.Constant) and red[0].args[1].value in ("s ... -> ...", "s ... -> () ...") and ast.unparse(red[0].args[0]) == "list(tensors.values())"
     ctx.ob("C11.a", "Biclique combine reduces only the stacked connection axis", ok, "", bi.where)
 
     # ---------------- (c) selectors
